@@ -29,7 +29,7 @@ from .normal import (
     same,
     state_digest,
 )
-from .isolate import ChildFailure, RefServer, forked
+from .isolate import ChildFailure, RefServer, Unpicklable, forked
 from .simfs import FS
 
 MAX_HANDLES = 4
@@ -183,6 +183,10 @@ class Sim:
         if self.ref_server is not None:
             try:
                 return self.ref_server.ask((uc, sg, asym, titl, op, self.A))
+            except Unpicklable:
+                # the state objects cannot travel to another process (then a
+                # Crystal cannot be pickled either): in-process reference
+                self.stats["isolated_reference_fallback_unpicklable"] += 1
             except ChildFailure as e:
                 raise HarnessError(str(e))
         return outcome(fn, Crystal(uc, sg, asym, titl=titl), self.A, {"dir": "/simfs/ref"})
